@@ -65,7 +65,7 @@ Proof.
   pose proof (rho_pos s m1 m2 H0 Hq) as Hr.
   destruct (psf_outside s m1 m2 H0 Hq) as [A1 A2]. destruct (abs_outside s m1 m2 H0 Hq) as [B1 B2].
   destruct (cpx_outside s m1 m2 H0 Hq) as [C1 C2].
-  repeat split; assumption.
+  exact (conj (conj A1 (conj A2 Hr)) (conj (conj B1 (conj B2 Hr)) (conj C1 (conj C2 Hr)))).
 Qed.
 
 Lemma rho_above_threshold s m1 m2 :
@@ -77,7 +77,7 @@ Proof.
   pose proof (rho_pos s m1 m2 H0 Hq) as Hr.
   destruct (psf_outside s m1 m2 H0 Hq) as [A1 A2]. destruct (abs_outside s m1 m2 H0 Hq) as [B1 B2].
   destruct (cpx_outside s m1 m2 H0 Hq) as [C1 C2].
-  repeat split; assumption.
+  exact (conj (conj A1 (conj A2 Hr)) (conj (conj B1 (conj B2 Hr)) (conj C1 (conj C2 Hr)))).
 Qed.
 
 Lemma below_pseudo_example : (0 < 1 /\ 0 < 1/5 /\ 0 < 9/25 /\ 9/25 < (1 - 1/5) ^ 2)%R.
